@@ -90,6 +90,12 @@ let rec handler r =
       let ops = List.map (fun c -> match c with 0 -> OpMean | 1 -> OpVariance | 2 -> OpStddev | _ -> OpMedian) (ilist r) in
       let (l', outs) = stat_history fops l ops in
       List.iter put_f outs; put_fl l'
+  | "gridstat" -> let a = num r in let b = num r in let n = integer r in let k = integer r in
+      let g = linear_space fops a b (nat_of_int n) in
+      (match closest_location fops g (List.nth g k) with
+       | Ok i -> let i = int_of_z i in
+           put_f (arithmetic_mean fops g); put_f (median fops g); put_i i; put_f (List.nth g k); put_f (List.nth g i)
+       | Exit -> put_w "EXIT" | OOB -> put_w "OOB" | Fuel -> put_w "FUEL")
   | o -> put_w ("MODELERR unknown_op_" ^ o)
 
 let () = run handler
